@@ -174,12 +174,12 @@ int disasm_86000(
           return 3;
         case OP_IMMEDIATE_AT_REG:
           reg = opcode & 0x3;
-          immediate = memory->read8(address + 2);
+          immediate = memory->read8(address + 1);
 
-          snprintf(instruction, length, "%s @r%d, 0x%04x",
+          snprintf(instruction, length, "%s #0x%02x, @r%d",
             table_86000[n].name,
             immediate,
-            address);
+            reg);
           return 2;
       }
     }
